@@ -199,6 +199,14 @@ func c14Case(env *Env, tape *sim.Tape) *CaseOut {
 	}
 
 	m := NewRegistry(DefaultOptions())
+	if krRaw/7%8 == 5 {
+		// not the first call on this registry and these minifier objects: a fault-free call
+		// on another document of the same type goes first (state carried between documents)
+		prev := env.Corpus[(di+1)%len(env.Corpus)]
+		warm := &Op{Entry: EPlain, MT: mt, In: prev.Data, R: sim.NewSimReader(nil, prev.Data), W: sim.NewSimWriter(nil)}
+		warm.Exec(nil, m)
+		out.stat("probe_second_call_on_same_registry", 1)
+	}
 	var sv *sim.Violation
 	var st RunStats
 	if entry == EPlain || entry == EMatch {
